@@ -1360,6 +1360,11 @@ func (f *FnVC) ret(x *ssa.Return) {
 		if e.Prop != "" && f.g.curProp != "" && e.Prop != f.g.curProp {
 			continue // clause belongs to another property's check
 		}
+		if e.Tag == "assumed" {
+			// definitional / trusted clause: handed to callers, not proved for this body; reported as an assumption
+			f.trusted["clause assumed, not proved: "+f.key+" ensures "+e.Text] = true
+			continue
+		}
 		txt := e.Text
 		if e.Tag != "" && e.Tag != "local" {
 			txt = "[" + e.Tag + "] " + txt
